@@ -25,6 +25,7 @@ inductive Err where
   | odxError              -- `odxraise(msg)` / `odxraise(msg, OdxError)` in strict mode
   | encodeError           -- `odxraise(msg, EncodeError)`
   | decodeError           -- `odxraise(msg, DecodeError)`
+  | attributeError        -- `x.attr` / `x.method(…)` where `x` is `None`
   | foreign               -- any other exception of a called function that is modelled by hand (see `call`)
 deriving Repr, DecidableEq, Inhabited
 
@@ -40,6 +41,11 @@ instance {α : Type} [DecidableEq α] : DecidableEq (M α)
 def unwrap {α : Type} : Option α → M α
   | some a => pure a
   | none => throw .typeError
+
+/-- object of an attribute access / method call `x.m(…)` for an `Optional` record `x`: `None.m` raises `AttributeError` -/
+def unwrapAttr {α : Type} : Option α → M α
+  | some a => pure a
+  | none => throw .attributeError
 
 /-- a call to a function that is NOT translated but stands for a hand-written model function (the spec of the translation
     names it): its value is the model's value, its exception the model's error class embedded by `f` -/
